@@ -92,6 +92,12 @@ func Generate(r *sim.Rng, prop, tier string, idx int) *sim.Case {
 	if r.Chance(1, 5) {
 		c.Knobs["wrap_errors"] = 1 // a storage that annotates its errors (errors.Is still identifies them)
 	}
+	if r.Chance(1, 5) {
+		c.Knobs["other_lockers"] = int64(1 + r.Intn(20)) // lockers of other names were requested first
+	}
+	if r.Chance(1, 4) {
+		c.Knobs["ctx_blind"] = 1 // a storage that does not look at the context of its short calls
+	}
 	if r.Chance(1, 3) {
 		// a remote storage: failures arrive as gRPC status errors (see injErrs)
 		c.Knobs["err_kind"] = int64(1 + r.Intn(5))
